@@ -2,7 +2,7 @@
 # re-evaluates every stored seed against the current checks (quick tier); writes /verif/seeded/SUMMARY.txt
 cd /verif
 : > /tmp/seedall.log
-declare -A EXTRA=( [C03-1]="C03,C10" [C04-1]="C04,C05,C10" [C02-2]="C02,C01" )
+declare -A EXTRA=( [C03-1]="C03,C10" [C04-1]="C04,C05,C10" [C01-4]="C01,C17" [C03-3]="C03,C16" [C04-3]="C04,C19" [C04-4]="C04,C03" [C05-4]="C05,C10" )
 for d in seeded/C*-*; do
   b=$(basename $d); id=${b%-*}; n=${b#*-}
   chk=${EXTRA[$b]:-$id}
